@@ -373,6 +373,31 @@ theorem client_enqueue :
            | exact ⟨c, rfl, rfl, hs, hn⟩
            | exact ⟨_, rfl, by simp [hs], by simp [hs], by simp [hn]⟩)
 
+/-- Both constructors of `HttpServer` (`new`, `new_from_fd`) return the model's initial server: the default payload
+    limit, no kill switch, no connections (the remaining fields are the OS resources). -/
+theorem server_new : Agrees Extracted.serverNew (Srv.new.limit, Srv.new.hasKill, Srv.new.conns.isEmpty) := by decide
+theorem server_new_from_fd : Agrees Extracted.serverNewFromFd (Srv.new.limit, Srv.new.hasKill, Srv.new.conns.isEmpty) := by decide
+
+def pstateName : PState → String
+  | .reqLine => "WaitingForRequestLine" | .headers => "WaitingForHeaders" | .body => "WaitingForBody" | .ready => "RequestReady"
+def cstateName : CState → String
+  | .awaitingIn => "AwaitingIncoming" | .awaitingOut => "AwaitingOutgoing" | .closed => "Closed"
+
+def connNewView (c : Conn0) : String × Nat × Bool × Nat × Bool × Bool × Bool × Bool × Bool × Nat :=
+  (pstateName c.state, c.win.length, c.bodyVec.isEmpty, c.toRead, c.pending.isNone, c.parsed.isEmpty, c.respQ.isEmpty,
+   c.respBuf.isNone, c.files.isEmpty, c.limit)
+
+set_option synthInstance.maxSize 2048 in
+/-- `HttpConnection::new` is the model's new connection with the default limit: parser state, empty window, nothing
+    staged, nothing pending / parsed / queued / partly written, no descriptors. -/
+theorem conn_new : Agrees Extracted.connNew (connNewView (Conn.new MAX_PAYLOAD_SIZE)) := by decide
+
+def clientNewView (c : Client) : String × Nat := (cstateName c.state, c.inflight)
+
+/-- `ClientConnection::new`: awaiting input, nothing in flight — the model's accepted client. -/
+theorem client_new :
+    Agrees Extracted.clientNew (clientNewView { fd := 0, inst := 0, conn := Conn.new MAX_PAYLOAD_SIZE }) := by decide
+
 /-! ### the router and `Uri::get_abs_path`, translated from router.rs / request.rs (obligations of C17 and C16) -/
 
 theorem method_to_str : Agrees Extracted.methodToStr (Method.all.map fun m => (methodName m, m.toStr)) := by decide
